@@ -344,6 +344,29 @@ example :
     r.lines = [{ entry := 0, status := 404, size := 14 }] ∧ r'.lines = [] := by
   decide
 
+/-- what `log` sees below it in a block that has (`true`) or has not an `errors` directive;
+a block with `gzip` always has one (`InspectServerBlocks`, see `Props/C09.gzip_implies_errors`) -/
+def belowLog (hasErrors : Bool) (errLen : Nat → Nat) (o : Outcome) : Outcome :=
+  if hasErrors then withErrors errLen o else o
+
+/-- One line per configured log with the panic exclusion narrowed to where it is real: the only
+handler behaviours excluded are panics in a block WITHOUT an `errors` (or `gzip`) directive.  With
+`errors` in the block the statement holds for every handler behaviour whatsoever.  (Still partial:
+the first-rule-only exclusion stays.) -/
+theorem C20_one_line_per_entry_partial_narrow (m : PathB → PathB → Bool) (errLen : Nat → Nat) (ds : List Directive)
+    (path : PathB) (o : Outcome) (hasErrors : Bool) (hp : hasErrors = true ∨ o.panics = false)
+    (i : Nat) (d : Directive) (hd : ds[i]? = some d) (hns : shadowed m ds d path = false) :
+    countFor (serverServe m errLen (logParse ds) path (belowLog hasErrors errLen o)).lines i =
+      if wants m d path then 1 else 0 := by
+  apply C20_one_line_per_entry_partial m errLen ds path _ _ i d hd hns
+  unfold belowLog
+  cases hasErrors with
+  | true => exact C20_errors_directive_contains_panics errLen o
+  | false =>
+    rcases hp with h | h
+    · exact absurd h (by simp)
+    · simpa using h
+
 /-- test: a panicking handler behind `errors`: one line, status 500, size of the error body -/
 example :
     let ds : List Directive := [{ scope := [47], excepts := [] }]
